@@ -37,8 +37,8 @@ var enumSymbols = []byte("[],\"\\/bfnrtuaesl019-+.E *#\t\n\rx\x01\xc3\xa9")
 
 type spaceBounds struct {
 	schemaN, enumN, regexN, jsonN, numberN int
-	schemaD, enumD, jsonD                int
-	graphForms                           int
+	schemaD, enumD, jsonD                  int
+	graphForms                             int
 }
 
 func c02Bounds(tier string) spaceBounds {
@@ -374,7 +374,7 @@ func init() {
 	Register(&Prop{
 		ID:        "C16",
 		Technique: "same exhaustive spaces as C02 (token strings, scanner state graph, corpus truncations, reference graphs); every returned error is judged by a diagnostic well-formedness oracle with an independent line/column reference",
-		Rule: "every error returned by any call of the bundle on any enumerated input: has a numeric code, is not a runtime error / internal-failure code / struct dump, renders without panic, and when positioned: index inside the text it refers to, line/column equal to the reference for single-convention texts, rendering quotes the line. non-trivial = errors judged",
+		Rule:      "every error returned by any call of the bundle on any enumerated input: has a numeric code, is not a runtime error / internal-failure code / struct dump, renders without panic, and when positioned: index inside the text it refers to, line/column equal to the reference for single-convention texts, rendering quotes the line. non-trivial = errors judged",
 		Bounds: func(tier string) map[string]any {
 			b := c02Bounds(tier)
 			return map[string]any{"schema_tokens": b.schemaN, "enum_tokens": b.enumN, "regex_bytes": b.regexN, "json_tokens": b.jsonN, "schema_open_lexemes": b.schemaD}
